@@ -112,6 +112,9 @@ func init() {
 				Thorough: &Tier{Params: map[string]int{"level": 0, "maxlen": 6, "exprlo": 17, "exprhi": 18}, Samples: 10}, Bounds: "[a-c]x, buffers up to 5 (6) bytes: decoy suffixes before the real match"},
 			{Pkg: ix, Func: "ZZ_C04_Find", Desc: "fixed-length + constant suffix, case folded class", Quick: &Tier{Params: map[string]int{"level": 0, "maxlen": 4, "exprlo": 50, "exprhi": 51}, Samples: 10},
 				Bounds: "(?i)[a-b]c, buffers up to 4 bytes"},
+			{Pkg: ix, Func: "ZZ_C04_Sequences", Desc: "one condition, THEN chains of up to 3 elements", Quick: tier(map[string]int{"sources": 1, "chunks": 3, "conditions": 1, "elements": 3}), Thorough: tier(map[string]int{"sources": 1, "chunks": 4, "conditions": 1, "elements": 3}),
+				Bounds: "the real dataConditionsContainer.add/finalize/makeDataConditionFilter over one converter output of 3 (4) one-byte chunks (directions enumerated, bytes symbolic); 1 data condition of 1..3 elements over atoms a/b in either direction, plain or inverted; oracle = reference scan in conversation order"},
+			{Pkg: ix, Func: "ZZ_C04_Sequences", Desc: "two conditions sharing expressions", Quick: tier(map[string]int{"sources": 1, "chunks": 2, "conditions": 2, "elements": 1}), Thorough: tier(map[string]int{"sources": 1, "chunks": 2, "conditions": 2, "elements": 2})},
 		},
 		Assumptions: []string{"oracle = the real rsc.io/binaryregexp matcher run on buffers[dir][offset:] (the plain scan)", "sync.Pool modelled as always empty"},
 		Outside: []string{"buffers longer than maxlen", "variables bound by captures / sub-query variable substitution", "expressions outside the enumerated grammar"},
